@@ -23,11 +23,25 @@ LOGGER_METHODS = {'warning', 'warn', 'error', 'critical', 'exception', 'info', '
 FRESH_CALLS = {'copy.copy', 'copy.deepcopy', 'dict', 'list', 'set', 'ET.Element', 'ET.fromstring', 'sorted', 'tuple'}
 
 
-class Write:
-    __slots__ = ('func', 'node', 'root', 'field', 'how', 'via')
+FAMILIES = ('XMLElement', 'XMLChildContainer', 'XSDElement', 'XSDTree', 'XSDAttribute', 'XSDAttributeGroup', 'XSDSimpleType', 'XSDComplexType',
+            'XSDSequence', 'XSDChoice', 'XSDGroup', 'XMLChildContainerFactory', 'Tree')
 
-    def __init__(self, func, node, root, field, how, via=None):
+
+class Write:
+    __slots__ = ('func', 'node', 'root', 'field', 'how', 'via', 'owners')
+
+    def __init__(self, func, node, root, field, how, via=None, owners=frozenset()):
         self.func, self.node, self.root, self.field, self.how, self.via = func, node, root, field, how, via
+        self.owners = owners      # class families of the written object (from the receiver typing); empty = unknown
+
+    def origin(self):
+        """The local write at the end of the via-call chain."""
+        w = self
+        n = 0
+        while w.via is not None and w.via[1] is not None and n < 50:
+            w = w.via[1]
+            n += 1
+        return w
 
     def site(self):
         return f"{self.func.fq}: {short(self.node, 90)}"
@@ -415,6 +429,16 @@ class Effects:
         return {'unknown'}
 
     # ------------------------------------------------------------------ local writes
+    def owners_of(self, e) -> frozenset:
+        out = set()
+        for a in self.ty.type_of(e):
+            if a[0] in ('inst', 'cls'):
+                c = self.sm.get_class(a[1])
+                names = [k.name for k in c.mro] if c else [a[1]]
+                fam = next((n for n in FAMILIES if n in names), a[1])
+                out.add(fam)
+        return frozenset(out)
+
     def _local_writes(self, f: FuncInfo):
         ws: List[Write] = []
         self.local_writes[f] = ws
@@ -422,13 +446,13 @@ class Effects:
         def target_write(t, node, how):
             if isinstance(t, ast.Attribute):
                 for r in self.expr_roots(f, t.value):
-                    ws.append(Write(f, node, r, t.attr, how))
+                    ws.append(Write(f, node, r, t.attr, how, owners=self.owners_of(t.value)))
             elif isinstance(t, ast.Subscript):
                 base = t.value
                 fld, holder = self._field_of(base)
                 if fld is not None:
                     for r in self.expr_roots(f, holder):
-                        ws.append(Write(f, node, r, fld, how + '[]'))
+                        ws.append(Write(f, node, r, fld, how + '[]', owners=self.owners_of(holder)))
                 elif isinstance(base, ast.Name):
                     for r in self.name_roots(f, base.id):
                         if r not in ('fresh', 'const'):
@@ -457,7 +481,7 @@ class Effects:
                 fld, holder = self._field_of(recv)
                 if fld is not None:
                     for r in self.expr_roots(f, holder):
-                        ws.append(Write(f, n, r, fld, 'mutate:' + n.func.attr))
+                        ws.append(Write(f, n, r, fld, 'mutate:' + n.func.attr, owners=self.owners_of(holder)))
                 elif isinstance(recv, ast.Name):
                     for r in self.name_roots(f, recv.id):
                         if r not in ('fresh', 'const'):
@@ -465,7 +489,7 @@ class Effects:
             elif isinstance(n, ast.Call) and isinstance(n.func, ast.Name) and n.func.id == 'setattr' and len(n.args) == 3:
                 nm = const_value(n.args[1])
                 for r in self.expr_roots(f, n.args[0]):
-                    ws.append(Write(f, n, r, nm if isinstance(nm, str) else '<dynamic>', 'setattr'))
+                    ws.append(Write(f, n, r, nm if isinstance(nm, str) else '<dynamic>', 'setattr', owners=self.owners_of(n.args[0])))
 
     def _field_of(self, e):
         """`x.f` -> ('f', x); `x.get_children()` / `x.get_attributes()` -> the field the getter returns, when it is a
@@ -600,7 +624,7 @@ class Effects:
                         else:
                             new_roots = amap.get(root, {'unknown'})
                         for nr in new_roots:
-                            if nr in ('fresh', 'const'):
+                            if nr in ('fresh', 'const') or (isinstance(nr, tuple) and nr[0] == 'of'):
                                 continue
                             key = (nr, field)
                             if key not in cur:
@@ -669,3 +693,89 @@ class Effects:
                        for i in cur.items):
                     return True
         return False
+
+
+# ---------------------------------------------------------------------------------------------------------------------
+# specialisation on one boolean parameter that is passed through a call chain (intelligent_choice)
+def _cfg_node_index(g):
+    idx = {}
+    for n in g.stmt_nodes():
+        for e in n.exprs():
+            for sub in ast.walk(e):
+                idx.setdefault(sub, n)
+    return idx
+
+
+def specialised_writes(ef: 'Effects', f: FuncInfo, param: str, value: bool, _stack=None, _memo=None):
+    """Writes of f (as (root, field, origin Write)) when its parameter `param` is the constant `value`; the constant is
+    propagated through calls that pass the parameter on unchanged, pruning branches the constant decides."""
+    from .cfg import cfg_of
+    _stack = _stack or ()
+    _memo = _memo if _memo is not None else {}
+    if f in _memo:
+        return _memo[f]
+    if f in _stack:
+        return set()
+    g = cfg_of(f.node)
+    assume = {param: value, f"{param} is True": value, f"{param} is False": not value, f"not {param}": not value}
+    ok = g.edge_filter_assuming(assume)
+    reach = g.reachable(g.entry, edge_ok=ok)
+    idx = _cfg_node_index(g)
+    out = set()
+
+    def live(node):
+        n = idx.get(node)
+        return n is None or n in reach
+    for w in ef.local_writes[f]:
+        if w.root in ('fresh', 'const'):
+            continue
+        if live(w.node):
+            out.add((w.root, w.field, w))
+    for e in ef.cg.out.get(f, []):
+        if not live(e.node):
+            continue
+        callee = e.callee
+        sub = None
+        if param in callee.params and isinstance(e.node, ast.Call):
+            passed = None
+            for kw in e.node.keywords:
+                if kw.arg == param:
+                    passed = kw.value
+            if passed is None:
+                off = 1 if (callee.cls is not None and callee.parent is None and not callee.is_staticmethod and isinstance(e.node.func, ast.Attribute)) else 0
+                i = callee.params.index(param) - off
+                if 0 <= i < len(e.node.args):
+                    passed = e.node.args[i]
+            const = None
+            if passed is None:
+                # default value
+                a = callee.node.args
+                names = [x.arg for x in a.posonlyargs + a.args]
+                if param in names:
+                    di = names.index(param) - (len(names) - len(a.defaults))
+                    if 0 <= di < len(a.defaults) and isinstance(a.defaults[di], ast.Constant):
+                        const = a.defaults[di].value
+            elif isinstance(passed, ast.Name) and passed.id == param and param in f.params:
+                const = value
+            elif isinstance(passed, ast.Constant):
+                const = passed.value
+            if isinstance(const, bool):
+                sub = specialised_writes(ef, callee, param, const, _stack + (f,), _memo if const == value else {})
+        if sub is None:
+            sub = {(r, fld, ef.write_exemplar.get((callee, (r, fld))).origin() if ef.write_exemplar.get((callee, (r, fld))) else None)
+                   for (r, fld) in ef.summary_writes.get(callee, set())}
+        amap = ef._arg_roots(e)
+        nested = callee.parent is not None
+        for (root, field, origin) in sub:
+            if root in ('class', 'module', 'unknown'):
+                new_roots = {root}
+            elif nested and (root == 'self' or (isinstance(root, tuple) and root not in amap)):
+                new_roots = {root}
+            else:
+                new_roots = amap.get(root, {'unknown'})
+            for nr in new_roots:
+                if nr in ('fresh', 'const') or (isinstance(nr, tuple) and nr[0] == 'of'):
+                    continue
+                out.add((nr, field, origin))
+    _memo[f] = out
+    return out
